@@ -4,6 +4,7 @@ C08 — Machine holds ≤ work_capacity items, each for exactly its processing d
 -/
 import FsVerif.Proofs.Machine
 import FsVerif.Props.C09
+import FsVerif.Props.C15
 import FsVerif.Model.Node.Pack
 namespace FsVerif.Props.C08
 open FsVerif MacState
@@ -58,5 +59,29 @@ items pulled, one delay drawn per item, one worker per item, never more than one
 
 example : let s := runActs (init { wc := 1, blocking := true }) C09.demoBlocking
     s.pulled = [1, 2, 3] ∧ s.pds = [1, 1, 1] ∧ s.workers.length = 3 ∧ s.held.length ≤ 1 ∧ s.users ≤ 1 := by decide +kernel
+
+/-! ### "… offers it downstream exactly one processing delay later; it leaves later only while every out-edge its policy permits is full."
+Node side, per step: when a blocking machine's processing timer ends, the worker — in that very activation — places a space request on
+EVERY out-edge (FIRST_AVAILABLE) resp. on the selected out-edge (index / ROUND_ROBIN / user policy) and suspends on `any_of` of those
+requests resp. on that one token; the edge side (a request that the edge can serve is granted at once: Props/C04) then gives: the item
+leaves at the first instant at which a permitted edge has room.  (A non-blocking machine decides in the same activation: Props/C09.) -/
+
+theorem updRep_nextTok (s : MacState) (t : Nat) : (s.updRep t).nextTok = s.nextTok := by
+  unfold MacState.updRep; split <;> rfl
+
+theorem machine_blocking_fa_requests_every_out_edge (s : MacState) (i : Nat) (w : Worker) (t : Nat) (a : Ans)
+    (hpc : w.pc = .timer) (hpol : s.cfg.outPol = .fa) (hb : s.cfg.blocking = true) :
+    (s.worker i w t a).2 = (List.range s.cfg.nout).map (fun j => Call.rp j (s.nextTok + j)) ++ [.awaitAny s.cfg.nout] := by
+  unfold MacState.worker
+  simp only [hpc, hpol, hb, ↓reduceIte]
+  have key : ∀ w' : Worker, (((s.updRep t).setWorker i w').updRep t).nextTok = s.nextTok := by
+    intro w'; rw [updRep_nextTok]; show (s.updRep t).nextTok = _; rw [updRep_nextTok]
+  simp only [key]
+
+theorem machine_blocking_policy_requests_selected_edge (s : MacState) (i : Nat) (w : Worker) (t : Nat) (a : Ans) (k : Int) (rr' : Nat) (c0 : List Call)
+    (hpc : w.pc = .timer) (hpol : s.cfg.outPol ≠ .fa) (hb : s.cfg.blocking = true)
+    (hsel : selIdx s.cfg.outPol s.rrOut s.cfg.nout a = (some k, rr', c0)) (h0 : 0 ≤ k) (h1 : k < s.cfg.nout) :
+    ∃ tok, (s.worker i w t a).2 = c0 ++ [.rp k.toNat tok, .awaitTok] :=
+  (C15.machine_policy_push_requests_selected_edge s i w t a k rr' c0 hpc hpol hb hsel h0 h1).2
 
 end FsVerif.Props.C08
